@@ -423,6 +423,17 @@ pub fn judge(case: &Case, l: &mut Local) {
                 l.sample(|| serde_json::to_value(case).unwrap());
                 judge_curve2(&c, &grid2(-1.0, 3.0, if case.fine { 0.25 } else { 0.5 }), 1e-9, case, l);
             }
+            // the same curve and queries in microns and in tens of kilometres
+            if case.verts.len() <= 3 {
+                for u in [1e-6, 1e4] {
+                    let ps: Vec<Point2> = pts.iter().map(|p| Point2::from(p.coords * u)).collect();
+                    if let Ok(c) = Curve2::from_points(&ps, 1e-9 * u, case.force_closed) {
+                        let qs: Vec<Point2> = grid2(-1.0, 3.0, 0.5).iter().map(|q| Point2::from(q.coords * u)).collect();
+                        l.bucket("curve at another length unit");
+                        judge_curve2(&c, &qs, 1e-9 * u, case, l);
+                    }
+                }
+            }
             // the same vertices as a curve with a coarse tolerance (0.05), queried from points whose
             // projections land a little way (0.01 .. 0.04) from the vertices: the tolerance is a length for
             // merging vertices and has no say in where a closest point is reported
@@ -453,6 +464,16 @@ pub fn judge(case: &Case, l: &mut Local) {
                     }
                 }
                 judge_curve3(&c, &qs, 1e-9, case, l);
+                if case.verts.len() <= 2 {
+                    for u in [1e-6, 1e4] {
+                        let ps: Vec<Point3> = pts.iter().map(|p| Point3::from(p.coords * u)).collect();
+                        if let Ok(cu) = Curve3::from_points(&ps, 1e-9 * u) {
+                            let qu: Vec<Point3> = qs.iter().step_by(3).map(|q| Point3::from(q.coords * u)).collect();
+                            l.bucket("curve at another length unit");
+                            judge_curve3(&cu, &qu, 1e-9 * u, case, l);
+                        }
+                    }
+                }
             }
         }
         "large2" => {
@@ -470,6 +491,43 @@ pub fn judge(case: &Case, l: &mut Local) {
                     qs.push(pts[i]);
                 }
                 judge_curve2(&c, &qs, 1e-9 * 1000.0, case, l);
+            }
+        }
+        "closed2" => {
+            // closed polygons of 5..16 inexact vertices (more than one leaf of the search tree), closed exactly,
+            // by the constructor, or only within the tolerance; queried outside every vertex (the seam included)
+            let k = case.size;
+            let mut pts: Vec<Point2> = (0..k)
+                .map(|i| {
+                    let t = std::f64::consts::TAU * i as f64 / k as f64 + 0.2;
+                    let r = 1.0 + 0.25 * ((2 * i) as f64).sin();
+                    Point2::new(2.0 * r * t.cos() + 0.4, r * t.sin() - 0.3)
+                })
+                .collect();
+            let (tol, fc) = match case.family.as_str() {
+                "exact" => {
+                    pts.push(pts[0]);
+                    (1e-9, false)
+                }
+                "tolerance" => {
+                    pts.push(pts[0] + engeom::Vector2::new(0.6, -0.8) * 4e-4);
+                    (1e-3, false)
+                }
+                _ => (1e-9, true),
+            };
+            if let Ok(c) = Curve2::from_points(&pts, tol, fc) {
+                l.distinct(hash_of(&serde_json::to_string(case).unwrap()));
+                l.bucket(if c.is_closed() { "closed polygon queried outside its vertices" } else { "polygon that did not come out closed" });
+                let cen = pts.iter().fold(engeom::Vector2::zeros(), |a, p| a + p.coords) / pts.len() as f64;
+                let mut qs = Vec::new();
+                for p in pts.iter() {
+                    let out = (p.coords - cen).normalize();
+                    for h in [0.0, 1e-6, 0.05, 0.7] {
+                        qs.push(p + out * h);
+                    }
+                }
+                qs.extend(grid2(-3.0, 3.0, 0.75));
+                judge_curve2(&c, &qs, if tol > 1e-6 { 1e-9 } else { 1e-9 }, case, l);
             }
         }
         "heightfield" => {
@@ -579,6 +637,11 @@ pub fn cases(tier: Tier) -> Vec<Case> {
             out.push(Case { kind: "large2".into(), verts: vec![], force_closed: false, family: fam.into(), size: n, fine });
         }
     }
+    for k in 5..=16usize {
+        for fam in ["exact", "forced", "tolerance"] {
+            out.push(Case { kind: "closed2".into(), verts: vec![], force_closed: false, family: fam.into(), size: k, fine });
+        }
+    }
     for k in 0..1024usize {
         out.push(Case { kind: "heightfield".into(), verts: vec![], force_closed: false, family: String::new(), size: k, fine });
     }
@@ -600,7 +663,7 @@ pub fn run(tier: Tier) -> i32 {
     let mut cx = Ctx::new("C02", tier, "exploration");
     cx.rule = "every 2D lattice curve with <= 4 vertices (open/force-closed) x the half-integer query grid; 3D lattice curves x a 7^3 grid; 7 structured large polyline families x 15 sizes (5..5000 edges: every QBVH occupancy and depth) x grid + on-entity queries; all 512 height fields over a 3x3 grid x 2 diagonal patterns and 4 solids (non-solid with inside queries, flagged solid with outside queries) x query grid x 4 caps x 3 angle limits; reference model: brute force over every edge / face. distinct = distinct entities".into();
     cx.bounds = json!({"curve2_seq_len": tier.pick(4, 5), "curve3_seq_len": 3, "query_grid_step": tier.pick(0.5, 0.25), "large_sizes": gen::LARGE_SIZES, "caps": [0.25, 1.0, 1.4142135623730951, 10.0], "angles": [0.2, 0.7853981633974483, 1.5]});
-    cx.require(&["many-element mesh", "query within 1e-3 of the surface", "query on the entity", "query equidistant from several elements", "query with a unique nearest element", "structured large polyline", "non-solid mesh with inside queries", "mesh flagged solid, outside queries", "mesh queried before being moved into place", "curve with a coarse tolerance, queries projecting next to vertices"]);
+    cx.require(&["many-element mesh", "query within 1e-3 of the surface", "query on the entity", "query equidistant from several elements", "query with a unique nearest element", "structured large polyline", "non-solid mesh with inside queries", "mesh flagged solid, outside queries", "mesh queried before being moved into place", "curve with a coarse tolerance, queries projecting next to vertices", "closed polygon queried outside its vertices", "curve at another length unit"]);
     cx.assume("ties: any minimiser accepted; gray: distance within 1e-9 of the cap, zero offset (angle undefined), angle within 1e-9 of the acceptance boundary");
     cx.assume("inside queries are made on non-solid meshes only, as the quantifier says (is_solid has no effect on Mesh::new meshes)");
     let cs = cases(tier);
